@@ -21,6 +21,7 @@ def run_history(ctx, drv_pending, base, batches, ops, X_by_id, label, feats, nco
     m = copy.deepcopy(base)
     cur = [batches[0]]  # ids of the batches making up the current training data
     observed = []
+    inv_rows = []
     seen = {}           # (input identity, training data identity) -> hash of the first output
     case = {"model": label, "ops": [str(o) for o in ops]}
     for o in ops:
@@ -61,7 +62,12 @@ def run_history(ctx, drv_pending, base, batches, ops, X_by_id, label, feats, nco
                     ctx.violation("transform-training", "transform(other data) returned the training embedding", case)
                 observed.append(f"E {rows} {cols} {1 if (is_emb if not graph_mode else is_train and is_emb) else 0}")
             elif kind == "I":
-                Z = m.embedding_[np.isfinite(m.embedding_).all(axis=1)][:3] * 0.999 + 0.001 * np.nanmean(m.embedding_, axis=0)
+                fin = m.embedding_[np.isfinite(m.embedding_).all(axis=1)]
+                if len(o) > 1 and o[1] == "all":
+                    Z = fin.copy()          # the round trip: one row per training sample (same shape as the training data's)
+                else:
+                    Z = fin[:3] * 0.999 + 0.001 * np.nanmean(m.embedding_, axis=0)
+                inv_rows.append(int(Z.shape[0]))
                 out = m.inverse_transform(Z.astype(np.float32))
                 if out.shape != (Z.shape[0], feats) or not np.all(np.isfinite(out)):
                     ctx.violation("inverse-shape", f"inverse_transform of {Z.shape[0]} rows: shape {out.shape}, finite={bool(np.all(np.isfinite(out)))}", case)
@@ -84,7 +90,7 @@ def run_history(ctx, drv_pending, base, batches, ops, X_by_id, label, feats, nco
             ids = cur if o[1] == "train" else [o[1]]
             toks += ["T"] + data_tokens([(i, X_by_id[i].shape[0]) for i in ids])
         elif o[0] == "I":
-            toks += ["I", 3]
+            toks += ["I", inv_rows.pop(0)]
         else:
             toks += ["U", o[1], X_by_id[o[1]].shape[0]]
             cur = cur + [o[1]]
@@ -94,7 +100,7 @@ def run_history(ctx, drv_pending, base, batches, ops, X_by_id, label, feats, nco
 def run(ctx):
     import umap
     rng = ctx.rng
-    ctx.rule = ("all operation sequences over {T(current training data), T(original data), T(new1), T(new2), inverse_transform, update(extra)} "
+    ctx.rule = ("all operation sequences over {T(current training data), T(original data), T(new1), T(new2), inverse_transform (3 rows), update(extra)}, plus histories with the round trip inverse_transform(embedding_) (as many rows as the training data) "
                 "up to length 2 (quick) / 3 (thorough) plus a seeded sample of the next length containing update-then-transform, on a seeded "
                 "exact-path model (n=60); shorter ones on a forced NN-descent model "
                 "and for n_epochs in {0,2,30} and transform_mode='graph'; after every step: shape, is-training-embedding, repetition equality, "
@@ -121,7 +127,9 @@ def run(ctx):
     # histories in which the same input recurs with read-only calls in between (always run)
     recur = [[("T", 1), ("I",), ("T", 1)], [("T", 1), ("T", 2), ("T", 1)],
              [("T", 1), ("I",), ("T", 2), ("I",), ("T", 1)], [("U", 3), ("T", 1), ("I",), ("T", 1)],
-             [("T", "train"), ("I",), ("T", 1), ("T", "train"), ("T", 1)]]
+             [("T", "train"), ("I",), ("T", 1), ("T", "train"), ("T", 1)],
+             # the round trip inverse_transform(embedding_): as many rows as the training data
+             [("T", 1), ("I", "all"), ("T", 1), ("T", "train")], [("I", "all"), ("U", 3), ("T", "train"), ("I", "all"), ("T", 1)]]
     seqs += [r for r in recur if r not in seqs]
     for ops in seqs:
         run_history(ctx, pending, base, [0], ops, X_by_id, "exact n=60 n_epochs=30", feats, ncomp)
@@ -144,9 +152,9 @@ def run(ctx):
     ba = umap.UMAP(n_neighbors=8, random_state=42, n_epochs=30, force_approximation_algorithm=True).fit(Xa)
     aseqs = [[o] for o in alphabet] + [[("U", 3), ("T", "train")], [("U", 3), ("T", 0)], [("U", 3), ("T", 1)], [("U", 3), ("I",)],
                                        [("T", 1), ("U", 3)], [("U", 3), ("T", "train"), ("T", 2)]]
-    aseqs += [[("T", 1), ("I",), ("T", 1)], [("U", 3), ("T", 1), ("I",), ("T", 1)]]
+    aseqs += [[("T", 1), ("I",), ("T", 1)], [("U", 3), ("T", 1), ("I",), ("T", 1)], [("T", 1), ("I", "all"), ("T", 1), ("T", "train")]]
     if ctx.thorough:
-        aseqs = [list(s) for L in (1, 2) for s in itertools.product(alphabet, repeat=L)] + aseqs[-2:]
+        aseqs = [list(s) for L in (1, 2) for s in itertools.product(alphabet, repeat=L)] + aseqs[-3:]
         aseqs += [list(s) for s in itertools.product(alphabet, repeat=3) if any(o[0] == "U" for o in s)]
     for ops in aseqs:
         if sum(1 for o in ops if o[0] == "U") > 1:
